@@ -41,6 +41,8 @@ pub struct Srv {
     pub queue: Arc<StatsQueue>,
     pub cfg: SrvCfg,
     pub dead: bool,
+    /// what this server is being used for (shown by the wedge watchdog)
+    pub label: String,
 }
 
 pub fn set_rcvbuf(fd: i32, bytes: i32) {
@@ -64,12 +66,79 @@ pub fn rcvbuf(fd: i32) -> i32 {
 
 static INIT: Once = Once::new();
 
+// ---------------------------------------------------------------------------------------------
+// wedge watchdog: a call into the subject that does not return is a violation ("wedged worker"),
+// not something the harness can wait out. Every step registers itself; a watchdog thread reports
+// the first step older than WEDGE_SECS with a replay file and a VIOLATION line and ends the process.
+
+pub const WEDGE_SECS: u64 = 60;
+static WATCH: std::sync::Mutex<Vec<Option<(std::time::Instant, String)>>> = std::sync::Mutex::new(Vec::new());
+static WATCH_ID: std::sync::Mutex<Option<(String, String, u64)>> = std::sync::Mutex::new(None); // property, tier, seed
+
+thread_local! {
+    static WATCH_SLOT: std::cell::Cell<usize> = std::cell::Cell::new(usize::MAX);
+}
+
+/// Tell the watchdog which check is running (for the replay/evidence it writes on a wedge).
+pub fn watchdog_identity(property: &str, tier: &str, seed: u64) {
+    *WATCH_ID.lock().unwrap() = Some((property.to_string(), tier.to_string(), seed));
+}
+
+fn watch_begin(label: &str) {
+    let mut w = WATCH.lock().unwrap();
+    let slot = WATCH_SLOT.with(|s| {
+        if s.get() == usize::MAX {
+            w.push(None);
+            s.set(w.len() - 1);
+        }
+        s.get()
+    });
+    w[slot] = Some((std::time::Instant::now(), label.to_string()));
+}
+
+fn watch_end() {
+    let slot = WATCH_SLOT.with(|s| s.get());
+    if slot != usize::MAX {
+        WATCH.lock().unwrap()[slot] = None;
+    }
+}
+
+fn watchdog_loop() {
+    loop {
+        std::thread::sleep(Duration::from_millis(500));
+        let stuck: Option<String> = {
+            let w = WATCH.lock().unwrap();
+            w.iter().flatten().find(|(t, _)| t.elapsed().as_secs() >= WEDGE_SECS).map(|(_, l)| l.clone())
+        };
+        if let Some(label) = stuck {
+            let (prop, tier, seed) = WATCH_ID.lock().unwrap().clone().unwrap_or(("C08".into(), "quick".into(), 1));
+            let vd = crate::ev::verif_dir();
+            let dir = format!("{}/replays/{}", vd, prop);
+            let _ = std::fs::create_dir_all(&dir);
+            let path = format!("{}/{}-step-does-not-return-0.json", dir, tier);
+            let rec = serde_json::json!({"property": prop, "tier": tier, "seed": seed, "clause": "step-does-not-return", "site": "process_events", "class": "wedge",
+                "occurrences": 1, "cases": [{"kind": "wedge", "label": label, "message": format!("a call into the subject did not return within {} s", WEDGE_SECS)}]});
+            let _ = std::fs::write(&path, serde_json::to_string_pretty(&rec).unwrap());
+            let ev = serde_json::json!({"property_id": prop, "tier": tier, "seed": seed, "level": "model_checking",
+                "coverage": {"states": 1, "transitions": 1, "traces_validated_against_impl": 1, "samples": [label], "exhaustive": false,
+                             "explanation": "run ended by the wedge watchdog: a call into the subject did not return"},
+                "assumptions": [], "wall_s": WEDGE_SECS as f64, "violations": 1});
+            let _ = std::fs::create_dir_all(format!("{}/evidence", vd));
+            let _ = std::fs::write(format!("{}/evidence/{}.json", vd, prop), serde_json::to_string_pretty(&ev).unwrap());
+            eprintln!("  violation clause=step-does-not-return: {}", label);
+            println!("VIOLATION property={} replay={}", prop, path);
+            std::process::exit(1);
+        }
+    }
+}
+
 /// Process-wide initialisation: poll timeout 0 (an idle step returns at once), logger installed.
 pub fn init() {
     INIT.call_once(|| {
         roughenough::verif::set_poll_override_ms(0);
         let _ = log::set_logger(&LOGGER);
         log::set_max_level(log::LevelFilter::Off);
+        let _ = std::thread::Builder::new().name("wedge-watchdog".into()).spawn(watchdog_loop);
     });
 }
 
@@ -110,6 +179,7 @@ impl Srv {
                         queue,
                         cfg: cfg.clone(),
                         dead: false,
+                        label: format!("in-process Server batch_size={} fault={} client_stats={} health={}", cfg.batch_size, cfg.fault, cfg.client_stats, cfg.health),
                     });
                 }
                 Err(p) => {
@@ -128,9 +198,23 @@ impl Srv {
         if self.dead {
             return Err("server object already dead".into());
         }
+        watch_begin(&self.label);
         let server = &mut self.server;
         let events = &mut self.events;
         let r = catch(move || server.process_events(events));
+        watch_end();
+        if r.is_err() {
+            self.dead = true;
+        }
+        r
+    }
+
+    /// Run the periodic statistics hand-off now (what the status timer does), under the watchdog.
+    pub fn handoff_stats(&mut self) -> Result<(), String> {
+        watch_begin(&format!("{} + send_client_stats", self.label));
+        let server = &mut self.server;
+        let r = catch(move || server.verif_send_client_stats());
+        watch_end();
         if r.is_err() {
             self.dead = true;
         }
